@@ -374,8 +374,9 @@ pub fn pass_tracker(rec: &SessionRec, seen_methods: &mut BTreeSet<TM>) -> Vec<Fi
       }
       Ev::ReadRet { res, reader: Some(_), .. } => {
         match (i.checked_sub(1).map(|j| &evs[j]), i.checked_sub(2).map(|j| &evs[j])) {
-          (Some(Ev::Trk(t)), Some(Ev::StampReader { stamp: Some(s), .. })) if t.m == TM::ReadEnd && t.subject == format!("R{}", res) => {
-            if t.stamp != format!("St({})", s) { out.push(f("C17", "read-end-stamp", i, format!("read_end(R{}) carries stamp {} but the checker produced {}", res, t.stamp, s))); }
+          (Some(Ev::Trk(t)), Some(Ev::StampReader { stamp: Some(s), kind, .. })) if t.m == TM::ReadEnd && t.subject == format!("R{}", res) => {
+            // (the unit-stamp variant of the checker, used for some Always reads, produces the stamp `()`)
+            if t.stamp != format!("St({})", s) && !(*kind == crate::log::Kind::Always && t.stamp == "()") { out.push(f("C17", "read-end-stamp", i, format!("read_end(R{}) carries stamp {} but the checker produced {}", res, t.stamp, s))); }
           }
           (a, _) => out.push(f("C17", "read-end-missing", i, format!("read of R{} returned but the preceding event is {:?}, not read_end", res, a))),
         }
